@@ -1,0 +1,23 @@
+//go:build !verif
+
+package traversal
+
+import (
+	"github.com/anacrolix/dht/v2/krpc"
+	"github.com/anacrolix/dht/v2/types"
+)
+
+// Verification hooks are compiled out without the verif build tag: these are empty, inlinable
+// stubs.
+
+type VerifEvent struct{}
+
+func verifEv(*Operation, VerifEvent) {}
+
+func verifAddNode(types.AddrMaybeId, string, *Operation) (_ VerifEvent) { return }
+func verifStartQuery(types.AddrMaybeId, *Operation) (_ VerifEvent)      { return }
+func verifQueryDone(types.AddrMaybeId, *Operation) (_ VerifEvent)       { return }
+func verifReturned(types.AddrMaybeId, QueryResult) (_ VerifEvent)       { return }
+func verifClosest(krpc.NodeInfo, bool, bool, *Operation) (_ VerifEvent) { return }
+func verifRunEval(bool, *Operation) (_ VerifEvent)                      { return }
+func verifSimple(string, *Operation) (_ VerifEvent)                     { return }
